@@ -1,7 +1,10 @@
 package main
 
 import (
+	"fmt"
 	"math/rand"
+	"strings"
+	"time"
 
 	"verifharness/abfth"
 	"verifharness/vu"
@@ -9,6 +12,8 @@ import (
 
 // Consensus cluster C02 C03 C04 C07 C08 C09: one scenario machinery (harness/abfth), the op mix
 // is aimed at the property.  Run executes the REAL abft.IndexedLachesis on the case.
+
+var c02Timeouts int
 
 func c02Register(id string, maxQuick, maxThorough int) {
 	vu.Register(id, &vu.Prop{
@@ -23,7 +28,28 @@ func c02Register(id string, maxQuick, maxThorough int) {
 		},
 		Run: func(in []string) []string {
 			sc := abfth.Parse(in)
-			return abfth.Exec(sc, vu.Stat)
+			// a per-case deadline: a code change that makes the traversal blow up must end as a
+			// reported observation, not as a hanging check
+			if c02Timeouts >= 3 {
+				return []string{"TIMEOUT-skipped"}
+			}
+			done := make(chan []string, 1)
+			go func() {
+				defer func() {
+					if r := recover(); r != nil {
+						done <- []string{"PANIC", strings.ReplaceAll(fmt.Sprint(r), " ", "_")}
+					}
+				}()
+				done <- abfth.Exec(sc, vu.Stat)
+			}()
+			select {
+			case obs := <-done:
+				return obs
+			case <-time.After(15 * time.Second):
+				c02Timeouts++
+				vu.Stat("timeout")
+				return []string{"TIMEOUT"}
+			}
 		},
 	})
 }
